@@ -1191,6 +1191,19 @@ class Evaluator:
                 return V("Some", (args[1],)) if b else V("None")
             if name == "not":
                 return not b
+        if base.endswith("ops::range::RangeInclusive::new") and len(args) == 2:
+            return St("core::ops::range::RangeInclusive", {"start": args[0], "end": args[1]})
+        if name == "contains" and len(args) == 2 and isinstance(a0, St) and a0.ty.startswith("core::ops::range::Range"):
+            x = args[1]
+            kind = a0.ty.rsplit("::", 1)[-1]
+            okl = True
+            if "start" in a0.f:
+                okl = self.compare("Ge", x, a0.f["start"])
+            if not okl:
+                return False
+            if "end" in a0.f:
+                return self.compare("Le" if kind in ("RangeInclusive", "RangeToInclusive") else "Lt", x, a0.f["end"])
+            return True
         if base in ("core::cmp::PartialEq::eq", "core::cmp::PartialEq::ne") and len(args) == 2:
             return self.compare("Eq" if name == "eq" else "Ne", args[0], args[1])
         if base.startswith("core::cmp::PartialOrd::") and name in ("lt", "le", "gt", "ge") and len(args) == 2:
